@@ -1,25 +1,558 @@
-//! C23 — not built yet (stub).
+//! C23 — HTTP writes acknowledged as queued are never silently dropped.
+//! One real `searchlite_http` server per case (in process, own loopback port, own index
+//! directory); the case is a sequence of raw request bodies for `/add` (NDJSON), `/bulk`,
+//! `/delete`, `/commit`, `/refresh`, `/compact`, `/search`.
+//! Correspondence: after EVERY request the response class, the pending operations of the log
+//! file (the implementation's own `Wal::last_pending_ops` on the index directory) and the
+//! contents a `/search` match_all returns are compared with `SL.HttpWrites.mechTrace`
+//! (`denote` + `mechStep`, `repaired = REPAIRED`).
+//! Finder (implementation alone, no model): an acknowledged request (2xx with `queued`) appends
+//! exactly its own operations to the log; a rejected request leaves the log as it was (in
+//! particular none of its own documents and none of the earlier acknowledged operations lost);
+//! after every successful `/commit` the contents equal the fold, in order, of all acknowledged
+//! operations since the previous commit over the previous contents (stored fields = what the
+//! implementation stores for that document in a fresh single-document index) and the log is
+//! empty; no other request changes what `/search` returns.
+use super::c04::{canon, canon_map, model_contents, ref_stored};
+use super::c24::httpc::*;
 use crate::proto::Driver;
 use crate::rng::Rng;
 use crate::summary::Summary;
+use crate::util::scratch;
 use crate::{Prop, Tier};
+use searchlite_core::storage::FsStorage;
+use searchlite_core::wal::{Wal, WalEntry};
 use serde_json::{json, Value};
+use std::collections::{BTreeMap, HashMap};
+use std::path::Path;
 
-pub struct Stub;
-pub static P: Stub = Stub;
+pub struct C23;
+pub static P: C23 = C23;
 
-impl Prop for Stub {
+/// which denotation of the model the implementation is compared with: `false` = the code as it
+/// exists (a failing `/add` or `/bulk` truncates the whole log), `true` = request-local rollback.
+/// Switch to `true` once the repair is in /repo (the finder does not depend on it).
+const REPAIRED: bool = false;
+
+/// `VERIF_C23_REPAIRED=0|1` overrides the constant (experiments only)
+fn repaired() -> bool {
+  match std::env::var("VERIF_C23_REPAIRED").as_deref() {
+    Ok("1") => true,
+    Ok("0") => false,
+    _ => REPAIRED,
+  }
+}
+
+const KNOWN_DROP: &str = "http.acked-write-dropped-by-later-rejected-request";
+
+const WORDS: [&str; 6] = ["rust", "search", "engine", "fast", "lite", "index"];
+
+fn schema_of(i: u64) -> Value {
+  match i % 2 {
+    // every field stored: compaction allowed
+    0 => json!({"doc_id_field":"_id",
+      "text_fields":[{"name":"body","analyzer":"default","stored":true,"indexed":true}],
+      "keyword_fields":[{"name":"tag","stored":true,"indexed":true,"fast":true}],
+      "numeric_fields":[{"name":"n","i64":true,"fast":true,"stored":true}]}),
+    // `n` fast but not stored: `/compact` of two or more segments is refused (500)
+    _ => json!({"doc_id_field":"_id",
+      "text_fields":[{"name":"body","analyzer":"default","stored":true,"indexed":true}],
+      "keyword_fields":[{"name":"tag","stored":true,"indexed":true,"fast":true}],
+      "numeric_fields":[{"name":"n","i64":true,"fast":true,"stored":false}]}),
+  }
+}
+
+// ---------------------------------------------------------------------------------------------
+// generator
+// ---------------------------------------------------------------------------------------------
+
+fn valid_doc(rng: &mut Rng, version: &mut u64) -> Value {
+  *version += 1;
+  let id = format!("d{}", rng.below(6));
+  let nw = 1 + rng.below(3);
+  let mut words: Vec<String> = (0..nw).map(|_| rng.pick(&WORDS).to_string()).collect();
+  words.push(format!("v{version}"));
+  let mut d = json!({"_id": id, "body": words.join(" ")});
+  match rng.below(4) {
+    0 => {
+      let t = ["a", "b", "c"][rng.below(3)];
+      d["tag"] = json!(t);
+    }
+    1 => {
+      let second = ["b", "c"][rng.below(2)];
+      d["tag"] = json!(["a", second]);
+    }
+    _ => {}
+  }
+  if rng.chance(1, 2) {
+    d["n"] = json!(rng.below(50));
+  }
+  d
+}
+
+/// a JSON object that `add_document` rejects (`validate_document`)
+fn invalid_doc(rng: &mut Rng, version: &mut u64) -> Value {
+  let mut d = valid_doc(rng, version);
+  match rng.below(9) {
+    0 | 1 => {
+      d.as_object_mut().unwrap().remove("_id");
+    }
+    2 => d["_id"] = json!(7),
+    3 => d["_id"] = json!(""),
+    4 => d["_id"] = json!(" \t"),
+    5 => d["n"] = json!("seven"),
+    6 => d["n"] = json!(1.5),
+    7 => d["tag"] = json!(["a", 3]),
+    _ => d["body"] = Value::Null,
+  }
+  d
+}
+
+fn bad_line(rng: &mut Rng) -> String {
+  ["{\"_id\": \"d1\", \"body\": ", "[1, 2]", "\"just a string\"", "nope", "{\"_id\": \"d1\"}}"][rng.below(5)].to_string()
+}
+
+fn ndjson(lines: &[String], rng: &mut Rng) -> String {
+  let mut out = String::new();
+  for l in lines {
+    out.push_str(l);
+    out.push_str(if rng.chance(1, 8) { "\r\n" } else { "\n" });
+    if rng.chance(1, 10) {
+      out.push_str(if rng.chance(1, 2) { "\n" } else { "   \n" });
+    }
+  }
+  out
+}
+
+fn gen_batch(rng: &mut Rng, version: &mut u64, invalid: bool) -> Vec<Value> {
+  let n = 1 + rng.below(4);
+  let mut docs: Vec<Value> = (0..n).map(|_| valid_doc(rng, version)).collect();
+  if invalid {
+    let at = rng.below(n);
+    docs[at] = invalid_doc(rng, version);
+    if rng.chance(1, 4) {
+      let at2 = rng.below(n);
+      docs[at2] = invalid_doc(rng, version);
+    }
+  }
+  docs
+}
+
+fn gen_request(rng: &mut Rng, version: &mut u64) -> Value {
+  let r = rng.below(100);
+  match r {
+    0..=27 => {
+      let lines: Vec<String> = gen_batch(rng, version, false).iter().map(|d| d.to_string()).collect();
+      json!({"ep": "add", "body": ndjson(&lines, rng)})
+    }
+    28..=34 => {
+      let lines: Vec<String> = gen_batch(rng, version, true).iter().map(|d| d.to_string()).collect();
+      json!({"ep": "add", "body": ndjson(&lines, rng)})
+    }
+    35..=38 => {
+      let inv = rng.chance(1, 3);
+      let mut lines: Vec<String> = gen_batch(rng, version, inv).iter().map(|d| d.to_string()).collect();
+      let at = rng.below(lines.len() + 1);
+      lines.insert(at, bad_line(rng));
+      json!({"ep": "add", "body": ndjson(&lines, rng)})
+    }
+    39..=40 => {
+      let body = ["", "\n", "  \n\n"][rng.below(3)];
+      json!({"ep": "add", "body": body})
+    }
+    41..=53 => json!({"ep": "bulk", "body": json!({"docs": gen_batch(rng, version, false)}).to_string()}),
+    54..=58 => json!({"ep": "bulk", "body": json!({"docs": gen_batch(rng, version, true)}).to_string()}),
+    59..=62 => {
+      let body = match rng.below(5) {
+        0 => json!({"docs": []}).to_string(),
+        1 => json!({"docs": [valid_doc(rng, version), 5]}).to_string(),
+        2 => "{\"docs\": [".to_string(),
+        3 => json!({"documents": [valid_doc(rng, version)]}).to_string(),
+        _ => json!({"docs": {"_id": "d1"}}).to_string(),
+      };
+      json!({"ep": "bulk", "body": body})
+    }
+    63..=73 => {
+      let n = 1 + rng.below(3);
+      let ids: Vec<String> = (0..n).map(|_| if rng.chance(1, 6) { "zz".to_string() } else { format!("d{}", rng.below(6)) }).collect();
+      json!({"ep": "delete", "body": json!({"ids": ids}).to_string()})
+    }
+    74..=77 => {
+      let body = match rng.below(7) {
+        0 => json!({"ids": []}).to_string(),
+        1 => json!({"ids": ["d1", ""]}).to_string(),
+        2 => json!({"ids": [" d2"]}).to_string(),
+        3 => json!({"ids": ["d3", "d0\u{1}"]}).to_string(),
+        4 => json!({"ids": ["d4\t"]}).to_string(),
+        5 => json!({"ids": ["d1", 2]}).to_string(),
+        _ => "{\"ids\": [\"d1\"".to_string(),
+      };
+      json!({"ep": "delete", "body": body})
+    }
+    78..=90 => json!({"ep": "commit"}),
+    91..=92 => json!({"ep": "refresh"}),
+    93..=95 => json!({"ep": "compact"}),
+    _ => json!({"ep": "search"}),
+  }
+}
+
+// ---------------------------------------------------------------------------------------------
+// the harness's reading of a request body (what reaches the library) — serde_json only
+// ---------------------------------------------------------------------------------------------
+
+/// model request for a case request
+fn classify(req: &Value) -> Value {
+  let ep = req["ep"].as_str().unwrap_or("");
+  let body = req["body"].as_str().unwrap_or("");
+  match ep {
+    "add" => {
+      let mut docs = Vec::new();
+      for line in body.split('\n') {
+        let t = line.trim();
+        if t.is_empty() {
+          continue;
+        }
+        match serde_json::from_str::<Value>(t) {
+          Ok(v) if v.is_object() => docs.push(v),
+          _ => return json!({"kind": "malformed"}),
+        }
+      }
+      json!({"kind": "add", "docs": docs})
+    }
+    "bulk" => match serde_json::from_str::<Value>(body) {
+      Ok(v) => match v.get("docs").and_then(|d| d.as_array()) {
+        Some(a) if v.is_object() => {
+          // an empty array is answered `missing_documents` before the elements are looked at
+          if !a.is_empty() && a.iter().any(|d| !d.is_object()) {
+            json!({"kind": "malformed"})
+          } else {
+            json!({"kind": "bulk", "docs": a})
+          }
+        }
+        _ => json!({"kind": "malformed"}),
+      },
+      Err(_) => json!({"kind": "malformed"}),
+    },
+    "delete" => match serde_json::from_str::<Value>(body) {
+      Ok(v) => match v.get("ids").and_then(|d| d.as_array()) {
+        Some(a) if v.is_object() && a.iter().all(|x| x.is_string()) => json!({"kind": "delete", "ids": a}),
+        _ => json!({"kind": "malformed"}),
+      },
+      Err(_) => json!({"kind": "malformed"}),
+    },
+    other => json!({"kind": other}),
+  }
+}
+
+/// the operations the request carries: (is_add, id, document)
+fn own_ops(m: &Value) -> Vec<(bool, String, Option<Value>)> {
+  match m["kind"].as_str().unwrap_or("") {
+    "add" | "bulk" => m["docs"]
+      .as_array()
+      .map(|a| a.iter().map(|d| (true, d["_id"].as_str().unwrap_or("").to_string(), Some(d.clone()))).collect())
+      .unwrap_or_default(),
+    "delete" => m["ids"].as_array().map(|a| a.iter().map(|i| (false, i.as_str().unwrap_or("").to_string(), None)).collect()).unwrap_or_default(),
+    _ => Vec::new(),
+  }
+}
+
+type Op = (bool, String, Option<Value>);
+
+fn ops_json(q: &[Op]) -> Value {
+  Value::Array(q.iter().map(|(a, i, _)| json!([a, i])).collect())
+}
+
+fn same_ops(a: &[Op], b: &[Op]) -> bool {
+  a.len() == b.len() && a.iter().zip(b).all(|(x, y)| x.0 == y.0 && x.1 == y.1 && x.2.as_ref().map(canon) == y.2.as_ref().map(canon))
+}
+
+fn wal_pending(dir: &Path) -> Result<Vec<Op>, String> {
+  let st = FsStorage::new(dir.to_path_buf());
+  let entries = Wal::last_pending_ops(&st, &dir.join("wal.log")).map_err(|e| e.to_string())?;
+  Ok(
+    entries
+      .into_iter()
+      .filter_map(|e| match e {
+        WalEntry::AddDoc(d) => {
+          let id = d.fields.get("_id").and_then(|v| v.as_str()).unwrap_or("").to_string();
+          Some((true, id, Some(Value::Object(d.fields.into_iter().collect()))))
+        }
+        WalEntry::DeleteDocId(id) => Some((false, id, None)),
+        WalEntry::Commit => None,
+      })
+      .collect(),
+  )
+}
+
+/// id → stored fields, through the service
+fn http_contents(port: u16) -> Result<BTreeMap<String, Value>, String> {
+  let req = json!({"query": {"type": "match_all"}, "limit": 100000, "return_stored": true, "execution": "bm25"});
+  let r = post_json(port, "/search", &req);
+  if r.status != Some(200) {
+    return Err(format!("search status {:?}: {}", r.status, r.body_text()));
+  }
+  let v = r.json().ok_or("search body is not JSON")?;
+  let mut out = BTreeMap::new();
+  for h in v["hits"].as_array().cloned().unwrap_or_default() {
+    let id = h["doc_id"].as_str().unwrap_or("").to_string();
+    if out.insert(id.clone(), canon(&h["fields"])).is_some() {
+      return Err(format!("duplicate live id {id}"));
+    }
+  }
+  Ok(out)
+}
+
+fn apply(exp: &mut BTreeMap<String, Value>, ops: &[Op]) {
+  for (is_add, id, doc) in ops {
+    if *is_add {
+      exp.insert(id.clone(), doc.clone().unwrap_or(Value::Null));
+    } else {
+      exp.remove(id);
+    }
+  }
+}
+
+/// expected contents (raw documents) → what the implementation stores for them
+fn stored_of(schema: &Value, exp: &BTreeMap<String, Value>, cache: &mut HashMap<String, Result<Value, String>>) -> Result<BTreeMap<String, Value>, String> {
+  let mut out = BTreeMap::new();
+  for (id, raw) in exp {
+    out.insert(id.clone(), ref_stored(schema, raw, cache)?);
+  }
+  Ok(out)
+}
+
+fn start_server(dir: &Path, refresh: bool, schema: &Value) -> Result<Server, String> {
+  let mut last = String::new();
+  for _ in 0..4 {
+    let sv = Server::start(dir, &ServerCfg { refresh_on_commit: refresh, ..Default::default() })?;
+    let r = post_json(sv.port, "/init", schema);
+    if r.status != Some(200) && r.status != Some(409) {
+      last = format!("/init: {:?} {}", r.status, r.body_text());
+      continue;
+    }
+    // make sure the port is served by *this* case's server (ports are picked concurrently)
+    let st = simple(sv.port, "GET", "/stats", None, b"");
+    let ours = st.json().map(|v| v["index_path"].as_str().map(|p| Path::new(p) == dir).unwrap_or(false)).unwrap_or(false);
+    if ours {
+      return Ok(sv);
+    }
+    last = "port answered by another server".into();
+  }
+  Err(last)
+}
+
+impl Prop for C23 {
   fn id(&self) -> &'static str {
     "C23"
   }
   fn rule(&self) -> &'static str {
-    "stub"
+    "case = (schema variant, refresh-on-commit flag, 12..36 raw HTTP requests: /add NDJSON and /bulk bodies with valid batches, batches containing a document add_document rejects (missing/non-string/blank _id, wrong field type, null) at a random position, unparsable lines/bodies, empty bodies; /delete with valid, unknown, invalid and malformed ids; /commit, /refresh, /compact, /search) against one live in-process server; after EVERY request response class, pending operations of wal.log and /search contents are compared with the model and the finder predicates are evaluated; a case is non-trivial when some successful /commit applied operations of at least two acknowledged requests AND some request was rejected while acknowledged operations were pending"
   }
-  fn count(&self, _tier: Tier) -> usize {
-    0
+  fn count(&self, tier: Tier) -> usize {
+    tier.pick(60, 2000)
   }
-  fn gen(&self, _rng: &mut Rng, _tier: Tier, _i: usize) -> Value {
-    json!(null)
+  fn gen(&self, rng: &mut Rng, _tier: Tier, _i: usize) -> Value {
+    let n = 12 + rng.below(25);
+    let mut version = 0u64;
+    let reqs: Vec<Value> = (0..n).map(|_| gen_request(rng, &mut version)).collect();
+    json!({"schema": if rng.chance(1, 4) { 1 } else { 0 }, "refresh_on_commit": rng.chance(1, 3), "reqs": reqs})
   }
-  fn run_case(&self, _drv: &mut Driver, _case: &Value, _s: &mut Summary) {}
+
+  fn run_case(&self, drv: &mut Driver, case: &Value, s: &mut Summary) {
+    let schema = schema_of(case["schema"].as_u64().unwrap_or(0));
+    let refresh = case["refresh_on_commit"] == json!(true);
+    let reqs = case["reqs"].as_array().cloned().unwrap_or_default();
+    let tmp = scratch();
+    let dir = tmp.path().join("idx");
+    let sv = match start_server(&dir, refresh, &schema) {
+      Ok(sv) => sv,
+      Err(e) => {
+        s.disagree("http.server-start", case, json!(e), json!(null));
+        return;
+      }
+    };
+    let port = sv.port;
+    let mreqs: Vec<Value> = reqs.iter().map(classify).collect();
+    let m = drv.call("C23", json!({"op": "run", "repaired": repaired(), "schema": schema, "reqs": mreqs}));
+    let steps = m["steps"].as_array().cloned().unwrap_or_default();
+    if m["ok"] != json!(true) || steps.len() != reqs.len() {
+      s.disagree("http.driver", case, json!(null), m);
+      return;
+    }
+
+    let mut cache: HashMap<String, Result<Value, String>> = HashMap::new();
+    // finder state (implementation observations only)
+    let mut committed: BTreeMap<String, Value> = BTreeMap::new(); // raw documents, as of the last commit
+    let mut acked: Vec<Op> = Vec::new(); // acknowledged since the last commit
+    let mut surviving: Vec<Op> = Vec::new(); // … minus what observed whole-log rollbacks removed
+    let mut drops_since_commit = 0u32;
+    let mut acked_reqs_since_commit = 0u32;
+    let mut finder_on = true;
+    let mut nt_commit = false;
+    let mut nt_reject = false;
+    let mut prev_contents: BTreeMap<String, Value> = BTreeMap::new();
+    let mut prev_pending: Vec<Op> = Vec::new();
+
+    for (k, req) in reqs.iter().enumerate() {
+      let ep = req["ep"].as_str().unwrap_or("");
+      let body = req["body"].as_str().unwrap_or("");
+      let ctx = json!({"case": case, "at": k, "request": req});
+      let r = match ep {
+        "add" => simple(port, "POST", "/add", Some("application/x-ndjson"), body.as_bytes()),
+        "bulk" => simple(port, "POST", "/bulk", Some("application/json"), body.as_bytes()),
+        "delete" => simple(port, "POST", "/delete", Some("application/json"), body.as_bytes()),
+        "commit" => simple(port, "POST", "/commit", None, b""),
+        "refresh" => simple(port, "POST", "/refresh", None, b""),
+        "compact" => simple(port, "POST", "/compact", None, b""),
+        _ => post_json(port, "/search", &json!({"query": {"type": "match_all"}, "limit": 5, "return_stored": false})),
+      };
+      let status = r.status.unwrap_or(0);
+      let rj = r.json().unwrap_or(Value::Null);
+      let queued = if (200..300).contains(&status) { rj.get("queued").and_then(|q| q.as_u64()) } else { None };
+      let err_type = rj["error"]["type"].as_str().unwrap_or("").to_string();
+      let class = match (status, queued) {
+        (200..=299, Some(n)) => json!({"class": "queued", "n": n}),
+        (200..=299, None) => json!({"class": "done"}),
+        (400..=499, _) => json!({"class": "rejected"}),
+        (500..=599, _) => json!({"class": "server_error"}),
+        _ => json!({"class": format!("no-response:{}", r.end)}),
+      };
+      let is_write = matches!(ep, "add" | "bulk" | "delete");
+      s.count(&format!("req.{ep}.{}", class["class"].as_str().unwrap_or("")));
+      if !err_type.is_empty() {
+        s.count(&format!("error.{err_type}"));
+      }
+
+      // ---- observations ----
+      let pending = match wal_pending(&dir) {
+        Ok(p) => p,
+        Err(e) => {
+          s.fail("http.log-unreadable", "the pending operations of wal.log cannot be replayed between two requests", &ctx, json!(e));
+          break;
+        }
+      };
+      let contents = match http_contents(port) {
+        Ok(c) => c,
+        Err(e) => {
+          s.fail("http.search-failed", "match_all through /search failed or returned an id twice", &ctx, json!(e));
+          break;
+        }
+      };
+
+      // ---- correspondence ----
+      let step = &steps[k];
+      if step["resp"] != class {
+        s.disagree("http.response-class", &ctx, json!({"status": status, "class": class, "body": r.body_text()}), step["resp"].clone());
+      }
+      if step["pending"] != ops_json(&pending) {
+        s.disagree("http.pending-log", &ctx, ops_json(&pending), step["pending"].clone());
+      }
+      let mcontents = model_contents(&step["contents"]);
+      if mcontents != contents {
+        s.disagree("http.contents", &ctx, json!(contents), json!(mcontents));
+      }
+      if is_write && step["rolls_back"].as_bool().unwrap_or(false) != (err_type == "add_failed") {
+        s.disagree("http.reaches-rollback", &ctx, json!(err_type), step["rolls_back"].clone());
+      }
+      if step["handles"] != json!(0) {
+        s.disagree("http.model-handles", &ctx, json!(0), step["handles"].clone());
+      }
+
+      // ---- finder: the property statement on the implementation alone ----
+      if finder_on {
+        let own = own_ops(&mreqs[k]);
+        if is_write && queued.is_some() {
+          // acknowledged
+          if queued != Some(own.len() as u64) && mreqs[k]["kind"] != json!("malformed") {
+            s.fail("http.ack-count", "the acknowledged `queued` count differs from the number of documents/ids sent", &ctx, json!({"queued": queued, "sent": own.len()}));
+          }
+          let mut want = prev_pending.clone();
+          want.extend(own.iter().cloned());
+          if !same_ops(&pending, &want) {
+            finder_on = false;
+            s.fail("http.acked-write-not-appended", "after an acknowledged request the log's pending operations are not (pending before ++ the request's documents/ids, in order)", &ctx, json!({"before": ops_json(&prev_pending), "after": ops_json(&pending), "own": ops_json(&own)}));
+          }
+          if !own.is_empty() {
+            acked_reqs_since_commit += 1;
+          }
+          acked.extend(own.iter().cloned());
+          surviving.extend(own.iter().cloned());
+        } else if is_write {
+          // rejected (or failed)
+          if !acked.is_empty() {
+            nt_reject = true;
+          }
+          if !same_ops(&pending, &prev_pending) {
+            let lost_prefix = pending.len() < prev_pending.len() && same_ops(&pending, &prev_pending[..pending.len()]);
+            if lost_prefix {
+              let sig = if (ep == "add" || ep == "bulk") && err_type == "add_failed" && status == 400 { KNOWN_DROP.to_string() } else { format!("http.acked-write-dropped-by-rejected-request.{ep}.{err_type}") };
+              s.fail(&sig, "a rejected write request removed operations from the log that earlier requests had been acknowledged for", &ctx, json!({"status": status, "error": err_type, "pending_before": ops_json(&prev_pending), "pending_after": ops_json(&pending)}));
+              s.count("observed.drop-of-acknowledged-operations");
+              drops_since_commit += 1;
+              surviving.truncate(pending.len().min(surviving.len()));
+            } else {
+              finder_on = false;
+              s.fail("http.rejected-request-changed-log", "a rejected write request left operations of its own in the log (or reordered it)", &ctx, json!({"status": status, "error": err_type, "pending_before": ops_json(&prev_pending), "pending_after": ops_json(&pending), "own": ops_json(&own)}));
+            }
+          }
+        } else if ep == "commit" && (200..300).contains(&status) {
+          let mut want_raw = committed.clone();
+          apply(&mut want_raw, &acked);
+          let want = stored_of(&schema, &want_raw, &mut cache);
+          let mut surv_raw = committed.clone();
+          apply(&mut surv_raw, &surviving);
+          if acked_reqs_since_commit >= 2 {
+            nt_commit = true;
+            s.count(if drops_since_commit == 0 { "commit.of-2+-acknowledged-requests.no-drop-before" } else { "commit.of-2+-acknowledged-requests.after-a-drop" });
+          }
+          match want {
+            Ok(w) if w == contents => committed = want_raw,
+            Ok(w) => {
+              let surv = stored_of(&schema, &surv_raw, &mut cache);
+              if drops_since_commit > 0 && surv.as_ref().ok() == Some(&contents) {
+                // the visible consequence of the drop(s) already observed on the log
+                s.fail(KNOWN_DROP, "after /commit the contents lack acknowledged writes: exactly the operations a later rejected /add or /bulk removed from the log", &ctx, json!({"contents": contents, "fold_of_acknowledged": w}));
+                committed = surv_raw;
+              } else {
+                finder_on = false;
+                s.fail("http.commit-contents-mismatch", "after /commit the contents are not the fold, in order, of the acknowledged writes since the previous commit", &ctx, json!({"contents": contents, "fold_of_acknowledged": w}));
+              }
+            }
+            Err(e) => {
+              s.count("reference_projection_unavailable");
+              let _ = e;
+              finder_on = false;
+            }
+          }
+          if !pending.is_empty() {
+            s.fail("http.commit-left-log", "operations are still pending in the log after a successful /commit", &ctx, ops_json(&pending));
+          }
+          acked.clear();
+          surviving.clear();
+          drops_since_commit = 0;
+          acked_reqs_since_commit = 0;
+        } else {
+          // /refresh, /compact, /search, failed /commit: nothing may change
+          if !same_ops(&pending, &prev_pending) {
+            s.fail("http.non-write-changed-log", "a request that is not a write changed the pending operations", &ctx, json!({"before": ops_json(&prev_pending), "after": ops_json(&pending)}));
+          }
+        }
+        if !(ep == "commit" && (200..300).contains(&status)) && canon_map(&contents) != prev_contents && finder_on {
+          finder_on = false;
+          s.fail("http.contents-changed-without-commit", "a request other than a successful /commit changed what /search returns", &ctx, json!({"before": prev_contents, "after": contents}));
+        }
+      }
+      prev_contents = contents;
+      prev_pending = pending;
+      if !sv.alive() {
+        s.fail("http.server-died", "the server task ended during the sequence", &ctx, json!(null));
+        break;
+      }
+    }
+    s.case(case, nt_commit && nt_reject);
+  }
+
+  fn finish(&self, _tier: Tier, s: &mut Summary) {
+    s.notes.push(format!("model denotation compared with: repaired = {}", repaired()));
+  }
 }
